@@ -370,37 +370,55 @@ func rulePermApplied(r *core.Run, id string) {
 	n := 0
 	// the assignments and the write may sit in a helper the exported function forwards to (parameter object): every
 	// frame under the function is looked at, values are read in the exported function's vocabulary
-	for _, fr := range frames(r, fn) {
+	all := frames(r, fn)
+	for _, fr := range all {
 		g := fr.Fn
 		sets := callsIn(r, g, "model/keeper.Keeper.SetMetadata")
 		if len(sets) == 0 {
 			continue
 		}
 		for _, field := range []string{"ReadonlyDids", "ReadwriteDids"} {
-			var stores []*ssa.Store
-			for _, b := range g.Blocks {
-				for _, ins := range b.Instrs {
-					st, ok := ins.(*ssa.Store)
-					if !ok {
-						continue
+			// blocks of g in which the field is assigned from a parameter of UpdatePermission: directly, or inside a
+			// helper called from that block
+			blocks := map[*ssa.BasicBlock]bool{}
+			for _, fs := range all {
+				if len(fs.Chain) < len(fr.Chain) {
+					continue
+				}
+				same := true
+				for i := range fr.Chain {
+					if fs.Chain[i] != fr.Chain[i] {
+						same = false
 					}
-					fa, ok := st.Addr.(*ssa.FieldAddr)
-					if !ok || shortTypeName(fa.X.Type())+"."+fieldNameT(fa.X.Type(), fa.Field) != "model/types.Metadata."+field {
-						continue
-					}
-					vt := strings.TrimLeft(normT(fr.T(r, st.Val)), "*&~")
-					if len(vt) >= 2 && vt[0] == '#' && strings.Trim(vt[1:], "0123456789") == "" {
-						stores = append(stores, st) // a parameter of UpdatePermission itself
+				}
+				if !same {
+					continue
+				}
+				for _, b := range fs.Fn.Blocks {
+					for _, ins := range b.Instrs {
+						st, ok := ins.(*ssa.Store)
+						if !ok {
+							continue
+						}
+						fa, ok := st.Addr.(*ssa.FieldAddr)
+						if !ok || shortTypeName(fa.X.Type())+"."+fieldNameT(fa.X.Type(), fa.Field) != "model/types.Metadata."+field {
+							continue
+						}
+						vt := strings.TrimLeft(normT(fs.T(r, st.Val)), "*&~")
+						if !(len(vt) >= 2 && vt[0] == '#' && strings.Trim(vt[1:], "0123456789") == "") {
+							continue
+						}
+						if len(fs.Chain) == len(fr.Chain) {
+							blocks[b] = true
+						} else {
+							blocks[fs.Chain[len(fr.Chain)].Block()] = true
+						}
 					}
 				}
 			}
 			for i, c := range sets {
 				n++
 				key := core.Key(id, fnName, fmt.Sprintf("SetMetadata#%d", i+1), field)
-				blocks := map[*ssa.BasicBlock]bool{}
-				for _, st := range stores {
-					blocks[st.Block()] = true
-				}
 				okp := blocks[c.Block()]
 				if !okp && len(blocks) > 0 {
 					okp = forwardAvoid(g.Blocks[0], blocks, nil, func(x *ssa.BasicBlock) bool { return x == c.Block() }) == nil
@@ -426,40 +444,69 @@ func ruleDebtRepay(r *core.Run, id string) {
 	if fn == nil {
 		return
 	}
-	n := 0
-	for _, fr := range frames(r, fn) {
-		g := fr.Fn
-		res := r.Resolver(g)
-		for _, b := range g.Blocks {
-			zeroed := false
-			var at *ssa.Store
-			lowered := false
-			for _, ins := range b.Instrs {
-				st, ok := ins.(*ssa.Store)
-				if !ok {
-					continue
+	// typestate over the function and the helpers it is split into: "consume" = a coin of the caller is overwritten
+	// through its pointer; "lower" = the Debt field of the debt record is assigned. Within a path the two must pair
+	// up (in either order) before the record is persisted.
+	nConsume := 0
+	rule := &tsRule{r: r,
+		events: func(g *ssa.Function, ins ssa.Instruction, T func(ssa.Value) string) []string {
+			switch x := ins.(type) {
+			case *ssa.Store:
+				if fa, ok := x.Addr.(*ssa.FieldAddr); ok {
+					if shortTypeName(fa.X.Type())+"."+fieldNameT(fa.X.Type(), fa.Field) == "node/types.PledgeDebt.Debt" {
+						return []string{"lower"}
+					}
+					return nil
 				}
-				vt := normT(res.Of(st.Val).String())
-				if _, isFA := st.Addr.(*ssa.FieldAddr); !isFA && strings.HasPrefix(vt, "sdk.NewCoin(") && strings.Contains(vt, "NewInt(0)") {
-					zeroed, at = true, st
+				switch x.Addr.(type) {
+				case *ssa.Alloc, *ssa.IndexAddr, *ssa.Global:
+					return nil
 				}
-				if fa, ok := st.Addr.(*ssa.FieldAddr); ok && shortTypeName(fa.X.Type())+"."+fieldNameT(fa.X.Type(), fa.Field) == "node/types.PledgeDebt.Debt" && strings.HasPrefix(vt, "sdk.Coin.Sub(") {
-					lowered = true
+				if shortTypeName(x.Addr.Type()) == "sdk.Coin" || strings.HasSuffix(x.Addr.Type().String(), "types.Coin") {
+					return []string{"consume"}
+				}
+			case ssa.CallInstruction:
+				if n, _ := r.Resolver(g).CalleeName(x.Common()); n == "node/keeper.Keeper.SetPledgeDebt" {
+					return []string{"persist"}
 				}
 			}
-			if !zeroed {
-				continue
+			return nil
+		},
+		step: func(st uint8, ev string) (uint8, string) {
+			const C, L = 1, 2
+			switch ev {
+			case "lower":
+				if st&C != 0 {
+					return st &^ C, ""
+				}
+				return st | L, ""
+			case "consume":
+				nConsume++
+				if st&L != 0 {
+					return st &^ L, ""
+				}
+				return st | C, ""
+			case "persist":
+				if st&C != 0 {
+					return st, "persisted with a coin consumed but the record not lowered"
+				}
 			}
-			n++
-			key := core.Key(id, fnName, fmt.Sprintf("coin consumed#%d", n))
-			if lowered {
-				r.Discharge(id, key, r.P.Pos(at.Pos()), "the debt record is lowered where the coin is consumed")
-			} else {
-				r.Violate(id, key, r.P.Pos(at.Pos()), "a coin is consumed against the pledge debt (set to zero) without the debt RECORD being lowered in the same step: the record persisted afterwards still shows the old debt, which is then withheld again from the next release or claim — more than the recorded debt is deducted and the excess stays in the module account")
-			}
+			return st, ""
+		}}
+	res := rule.run(fn, 0)
+	key := core.Key(id, fnName, "coin consumed => debt record lowered before it is persisted")
+	switch {
+	case nConsume == 0 || res.counts["persist"] == 0:
+		r.Undecide(id, key, r.P.FuncPos(fn), fmt.Sprintf("vacuous: expected a coin overwritten through its pointer and a SetPledgeDebt under %s (found %d, %d)", fnName, nConsume, res.counts["persist"]))
+	case res.bad == "":
+		r.Discharge(id, key, r.P.FuncPos(fn), "wherever a coin is consumed against the debt the debt record is lowered before SetPledgeDebt")
+	default:
+		pos := r.P.FuncPos(fn)
+		if res.badAt != nil && res.badAt.Pos().IsValid() {
+			pos = r.P.Pos(res.badAt.Pos())
 		}
+		r.Violate(id, key, pos, "a coin is consumed against the pledge debt (overwritten through its pointer) on a path that persists the debt RECORD without having lowered it: the record still shows the old debt, which is then withheld again from the next release or claim — more than the recorded debt is deducted and the excess stays in the module account")
 	}
-	r.Floor("debt_repay_sites", n, 1)
 }
 
 func structOfT(t types.Type) *types.Struct {
